@@ -102,6 +102,12 @@ def expected(seq):
     return None
 
 
+def flag_line(seq):
+    m = {"gate": lambda q: "g,%d" % q, "cxa": lambda q: "c,%d,%d" % (q, 1 - q), "measure": lambda q: "m,%d" % q,
+         "mexpr": lambda q: "m,%d" % q, "reset": lambda q: "r,%d" % q, "marr": lambda q: "a,0,1"}
+    return "flag 2 " + ";".join(m[op](q) for op, q in seq)
+
+
 def run(chk):
     chk.rule = ("EXHAUSTIVE: every sequence of length <= L over {gate, cx, measure statement, measure expression, reset, measure-array} x "
                 "{qubit 0, qubit 1} of a qubit[2], each rendered with a seeded choice of access path per step (array element, function "
@@ -133,6 +139,11 @@ def run(chk):
             meta.append((seq, pos))
     chk.exhaustive = True
     lines, impl, model, incident = evallib.run_programs(progs)
+    # the oracle is the Lean flag machine (Props/C06 theorems are about it); the Python `expected` must agree with it
+    from framework import driver
+    fm = driver([flag_line(seq) for seq in seqs])[0]
+    lean_expected = {tuple(seq): (None if r == "none" else int(r.split()[1])) for seq, r in zip(seqs, fm)}
+    oracle_mismatch = next((seq for seq in seqs if lean_expected[tuple(seq)] != expected(seq)), None)
     dis = bad = None
     refused = 0
     for i, (src, ds) in enumerate(progs):
@@ -144,7 +155,7 @@ def run(chk):
             continue
         seq, pos = meta[i]
         chk.count(tuple(seq) if any(op in ("measure", "mexpr", "marr") for op, _ in seq) else None)
-        k = expected(seq)
+        k = lean_expected[tuple(seq)]
         why = None
         if k is None:
             if not a.startswith("ok "):
@@ -164,6 +175,9 @@ def run(chk):
     chk.extra["expected_refusals"] = refused
     chk.extra["correspondence"] = {"programs": len(progs), "first_disagreement": ("%s impl=%s model=%s" % (dis[0][-300:], dis[2][:120], dis[3][:120])) if dis else ""}
     chk.sample({"program": progs[len(progs) // 2][0], "result": impl[len(progs) // 2][:80]})
+    if oracle_mismatch is not None:
+        chk.violation("Lean flag machine and the python oracle disagree on %s" % (oracle_mismatch,), {"sequence": str(oracle_mismatch), "kind": "oracle"},
+                      found_input=False)
     if bad:
         src, ds, why, a = bad
         chk.violation("measured-qubit guard: %s\n%s" % (why, src), {"source": src, "draws": ds, "impl": a[:300], "kind": "program"})
